@@ -62,7 +62,12 @@ fn const_value(d: &mut Dec, depth: u32) -> (Expr, Value) {
             (Expr::Map(em), Value::Map(vm))
         }
     } else {
-        let v = match gen::image_literal(d) {
+        let lit = if d.below(6) == 5 {
+            Value::String((*d.pick(&["https://example.com/rules", "// not a comment", "a//b", "//", "x // y // z"])).to_string())
+        } else {
+            gen::image_literal(d)
+        };
+        let v = match lit {
             // strings without raw line breaks here; the line-break class is generated separately
             Value::String(s) => Value::String(s.replace(['\n', '\r'], " ")),
             Value::Float(f) if !f.is_finite() => Value::Float(1.0),
@@ -161,6 +166,15 @@ fn build_script(bytes: &[u8]) -> Script {
     // expression
     let depth = d.below(5) as u32;
     let expr = strip_newlines(&gen::gen_image(&mut d, depth));
+    // sometimes the expression compares with a string that contains two slashes (content, not a comment)
+    let expr = if d.below(6) == 5 {
+        Expr::neq(
+            Expr::Value(Value::String((*d.pick(&["http://localhost", "//", "a // b"])).to_string())),
+            Expr::index(expr, reval::expr::Index::Map("url".into())),
+        )
+    } else {
+        expr
+    };
     // D12 class: a multi-line string literal one of whose lines starts with //
     let comment_in_string = d.below(40) == 39;
     let (expr, etoks, expr_text) = if comment_in_string {
